@@ -1,0 +1,194 @@
+// Copyright 2024, Pulumi Corporation.
+
+//go:build verif
+
+package cli
+
+import (
+	"bytes"
+	"context"
+	"errors"
+	"fmt"
+	"io"
+	"io/fs"
+	"os"
+	"path"
+	"strings"
+	"testing/fstest"
+
+	"github.com/pulumi/esc/cmd/esc/cli/client"
+	"github.com/pulumi/pulumi/pkg/v3/backend/display"
+	"github.com/pulumi/pulumi/sdk/v3/go/common/diag/colors"
+	"github.com/pulumi/pulumi/sdk/v3/go/common/workspace"
+)
+
+// Verification hook (property C15): run one `esc` command line in-process against a caller-supplied
+// client.Client, with an in-memory file system and a logged-in account, so that `env set`, `env rm` and
+// `env get` can be driven against a fake backend. Nothing here is compiled without the `verif` build tag.
+
+type verifC15File struct {
+	f      *fstest.MapFile
+	offset int64
+}
+
+func (f *verifC15File) Close() error { return nil }
+
+func (f *verifC15File) Read(p []byte) (int, error) {
+	if f.offset >= int64(len(f.f.Data)) {
+		return 0, io.EOF
+	}
+	n := copy(p, f.f.Data[f.offset:])
+	f.offset += int64(n)
+	return n, nil
+}
+
+func (f *verifC15File) Write(p []byte) (int, error) {
+	if delta := f.offset + int64(len(p)) - int64(len(f.f.Data)); delta > 0 {
+		f.f.Data = append(f.f.Data, make([]byte, delta)...)
+	}
+	n := copy(f.f.Data[f.offset:], p)
+	f.offset += int64(n)
+	return n, nil
+}
+
+type verifC15FS struct {
+	fstest.MapFS
+}
+
+func (tfs verifC15FS) MkdirAll(name string, perm fs.FileMode) error {
+	if path.Dir(name) == "/" || path.Dir(name) == "." {
+		return nil
+	}
+	if err := tfs.MkdirAll(path.Dir(name), perm); err != nil {
+		return err
+	}
+	tfs.MapFS[name] = &fstest.MapFile{Mode: perm | fs.ModeDir}
+	return nil
+}
+
+func (tfs verifC15FS) LockedRead(name string) ([]byte, error) { return tfs.ReadFile(name) }
+
+func (tfs verifC15FS) LockedWrite(name string, content io.Reader, perm os.FileMode) error {
+	data, err := io.ReadAll(content)
+	if err != nil {
+		return err
+	}
+	tfs.MapFS[name] = &fstest.MapFile{Data: data, Mode: perm}
+	return nil
+}
+
+func (tfs verifC15FS) CreateTemp(dir, pattern string) (string, io.ReadWriteCloser, error) {
+	if dir == "" {
+		dir = "temp"
+	}
+	for i := 0; ; i++ {
+		name := path.Join(dir, strings.ReplaceAll(pattern, "*", fmt.Sprintf("temp-%v", i)))
+		if _, ok := tfs.MapFS[name]; !ok {
+			f := &fstest.MapFile{Mode: 0o600}
+			tfs.MapFS[name] = f
+			return name, &verifC15File{f: f}, nil
+		}
+	}
+}
+
+func (tfs verifC15FS) Remove(name string) error {
+	if _, err := tfs.Stat(name); err != nil {
+		return err
+	}
+	delete(tfs.MapFS, name)
+	return nil
+}
+
+type verifC15Workspace struct {
+	credentials workspace.Credentials
+}
+
+func (w *verifC15Workspace) DeleteAccount(backendURL string) error {
+	delete(w.credentials.Accounts, backendURL)
+	return nil
+}
+func (w *verifC15Workspace) DeleteAllAccounts() error {
+	w.credentials.Accounts = map[string]workspace.Account{}
+	return nil
+}
+func (*verifC15Workspace) SetBackendConfigDefaultOrg(backendURL, defaultOrg string) error { return nil }
+func (*verifC15Workspace) GetPulumiConfig() (workspace.PulumiConfig, error) {
+	return workspace.PulumiConfig{}, nil
+}
+func (*verifC15Workspace) GetPulumiPath(elem ...string) (string, error) {
+	return path.Join(append([]string{"/pulumi"}, elem...)...), nil
+}
+func (w *verifC15Workspace) GetStoredCredentials() (workspace.Credentials, error) {
+	return w.credentials, nil
+}
+func (w *verifC15Workspace) StoreAccount(key string, account workspace.Account, current bool) error {
+	w.credentials.Accounts[key] = account
+	if current {
+		w.credentials.Current = key
+	}
+	return nil
+}
+func (w *verifC15Workspace) GetAccount(key string) (workspace.Account, error) {
+	return w.credentials.Accounts[key], nil
+}
+
+type verifC15Login struct {
+	creds workspace.Credentials
+}
+
+func (lm *verifC15Login) Current(
+	ctx context.Context, cloudURL string, insecure, setCurrent bool,
+) (*workspace.Account, error) {
+	acct, ok := lm.creds.Accounts[lm.creds.Current]
+	if !ok {
+		return nil, errors.New("unauthorized")
+	}
+	return &acct, nil
+}
+
+func (lm *verifC15Login) Login(
+	ctx context.Context, cloudURL string, insecure bool, command string, message string,
+	welcome func(display.Options), current bool, opts display.Options,
+) (*workspace.Account, error) {
+	acct, ok := lm.creds.Accounts[cloudURL]
+	if !ok {
+		return nil, errors.New("unauthorized")
+	}
+	return &acct, nil
+}
+
+type verifC15Environ map[string]string
+
+func (env verifC15Environ) Get(key string) string { return env[key] }
+func (env verifC15Environ) Vars() []string        { return nil }
+
+// VerifC15Run runs `esc <args...>` with c as the backend client and returns what was written to stdout and
+// stderr together with the command's error.
+func VerifC15Run(c client.Client, args []string) (string, string, error) {
+	creds := workspace.Credentials{
+		Current: "http://fake.pulumi.api",
+		Accounts: map[string]workspace.Account{
+			"http://fake.pulumi.api": {Username: "test-user", AccessToken: "access-token"},
+		},
+	}
+	var stdout, stderr bytes.Buffer
+	cmd := New(&Options{
+		Stdin:           strings.NewReader(""),
+		Stdout:          &stdout,
+		Stderr:          &stderr,
+		Colors:          colors.Never,
+		Login:           &verifC15Login{creds: creds},
+		PulumiWorkspace: &verifC15Workspace{credentials: creds},
+		fs:              verifC15FS{MapFS: fstest.MapFS{}},
+		environ:         verifC15Environ{},
+		newClient: func(_, _, _ string, _ bool) client.Client {
+			return c
+		},
+	})
+	cmd.SetArgs(args)
+	cmd.SetIn(strings.NewReader(""))
+	cmd.SetOut(&stdout)
+	cmd.SetErr(&stderr)
+	err := cmd.Execute()
+	return stdout.String(), stderr.String(), err
+}
